@@ -4,7 +4,7 @@ from checks.actorgen import *
 
 ID = 'C07'
 RULE = ('one case = a real KeyspaceGroup over MemStore (SQLite file in thorough) driven through a generated request history (as in C02, with storage failures), stopped at a chosen point and started again on the same storage '
-        '(fresh KeyspaceGroup + load_states_from_storage): (a) between requests - for histories up to 12 requests every position is used once (quick: every 2nd), (b) INSIDE a request - the storage wrapper performs the inner '
+        '(fresh KeyspaceGroup + load_states_from_storage; a third of the cases spread the requests over two or three keyspaces of the node, all of which must be rebuilt from their own part of the store): (a) between requests - for histories up to 12 requests every position is used once (quick: every 2nd), (b) INSIDE a request - the storage wrapper performs the inner '
         'write and never returns, the node is abandoned and restarted (single and bulk requests, purge). After the restart the rebuilt set (Serialize) is compared with iter_metadata of the store and with the Lean model '
         '(loadFromStorage); the node then continues with more requests and is restarted again. non-trivial = a restart after at least one tombstone or a mid-request crash; distinct by hash')
 ASSUMPTIONS = ['a crash is modelled on the process state: the store keeps what had been written; durability of SQLite/LMDB across a real power loss is the backend\'s',
@@ -28,7 +28,11 @@ def gen_case(rng, idx, backend, crash_pos, mid):
     n = rng.range(2, 12)
     lines = ['case %d actor %s c%d' % (idx, backend, idx)]
     pos = crash_pos % n
+    # a node holds several keyspaces: a third of the cases spread the requests over two or three of them
+    spaces = ['ks'] if rng.chance(2, 3) else ['ks', 'kb', 'kc'][:rng.range(2, 3)]
     for i in range(n):
+        if len(spaces) > 1 and rng.chance(1, 2):
+            lines.append('ks %s' % rng.choice(spaces))
         req = h.request()
         if i == pos and mid:
             lines += [with_hang(req), 'restart', 'state']
@@ -39,7 +43,11 @@ def gen_case(rng, idx, backend, crash_pos, mid):
     # life goes on, then a second restart
     for _ in range(rng.range(0, 4)):
         lines.append(h.request(fail_ok=False))
-    lines += ['state', 'restart', 'state', 'end']
+    lines += ['state', 'restart', 'state']
+    for sp in spaces:
+        if len(spaces) > 1:
+            lines += ['ks %s' % sp, 'state']
+    lines.append('end')
     return lines
 
 
@@ -55,7 +63,14 @@ def generate(rng, tier):
 def oracle(case, impl):
     bad = []
     prev = None
+    clean = False      # True from a restart until the next request: every keyspace must show exactly what its storage holds
     for i, (line, out) in enumerate(zip(case, impl)):
+        if line == 'restart': clean = True
+        elif line.split()[0] in ('set', 'del', 'mset', 'mdel', 'purge'): clean = False
+        if line == 'state' and clean and ' | store ' in out and not (i > 0 and case[i - 1] == 'restart'):
+            live, dead, sl, sd = parse_state(out)
+            if live != sl or dead != sd:
+                bad.append('after restart a keyspace\'s rebuilt set has live=%s tombstones=%s but its storage holds live=%s tombstones=%s' % (live, dead, sl, sd))
         if out.startswith(('crash', 'panic', 'timeout')):
             bad.append('%s: %s' % (line[:80], out)); continue
         if line == 'state' and i > 0 and case[i - 1] == 'restart':
